@@ -27,15 +27,16 @@ VARIABLES
   owed,     \* peers whose block was seen in a pair the spec refuses and who have not been stopped since
   failH,    \* heights of the refused pairs seen at the current pool.height (see StepStopPeer)
   wide,     \* [p, h] such that p has reported a range covering h at some point of the run
+  cuAge,    \* number of logged pools since IsCaughtUp last held
   hand,     \* [done, h, honestInPool] from the Handover event
   viol, drift
 
-vars == <<l, tT, honest, gp, blocks, gst, gstore, owed, failH, wide, hand, viol, drift>>
+vars == <<l, tT, honest, gp, blocks, gst, gstore, owed, failH, wide, cuAge, hand, viol, drift>>
 
 EmptyPool == [h |-> 1, req |-> << >>, peers |-> << >>, maxH |-> 0]
 Init ==
   /\ l = 1 /\ tT = 0 /\ honest = {} /\ gp = EmptyPool /\ blocks = << >>
-  /\ gst = [h |-> 0, lastID |-> NoBID] /\ gstore = << >> /\ owed = {} /\ failH = {} /\ wide = {}
+  /\ gst = [h |-> 0, lastID |-> NoBID] /\ gstore = << >> /\ owed = {} /\ failH = {} /\ wide = {} /\ cuAge = 100
   /\ hand = [done |-> FALSE, h |-> 0, honestInPool |-> FALSE]
   /\ viol = {} /\ drift = {}
 
@@ -120,6 +121,7 @@ InstallM(e, expected, tbl, st, extraDrift, extraViol, stoppedNow, mid) ==
                  \cup FailIf(lp \notin expected, D("pool after " \o e.ev \o " differs from the spec's"))
      /\ viol' = viol \cup extraViol
      /\ owed' = (owed \ stoppedNow) \cup newOwed
+     /\ cuAge' = IF IsCaughtUp(lp) THEN 0 ELSE IF cuAge < 100 THEN cuAge + 1 ELSE cuAge
      /\ failH' = (IF PairRefused(lp, st) THEN {lp.h, lp.h + 1} ELSE {})
                  \cup (IF midRefused THEN {mid.h, mid.h + 1} ELSE {}) \cup {h \in failH : h >= lp.h}
 
@@ -130,7 +132,7 @@ StepReset(e) ==
   /\ tT' = e.T
   /\ honest' = {e.peers[i].p : i \in {j \in 1..Len(e.peers) : e.peers[j].honest}}
   /\ gp' = EmptyPool /\ blocks' = << >>
-  /\ gst' = [h |-> 0, lastID |-> NoBID] /\ gstore' = << >> /\ owed' = {} /\ failH' = {} /\ wide' = {}
+  /\ gst' = [h |-> 0, lastID |-> NoBID] /\ gstore' = << >> /\ owed' = {} /\ failH' = {} /\ wide' = {} /\ cuAge' = 100
   /\ hand' = [done |-> FALSE, h |-> 0, honestInPool |-> FALSE]
   /\ UNCHANGED <<viol, drift>>
 
@@ -244,7 +246,8 @@ StepHandover(e) ==
   IN /\ hand' = [done |-> TRUE, h |-> e.h, honestInPool |-> (DOMAIN gp.peers \cap DOMAIN lp.peers \cap honest) # {}]
      /\ Install(e, {x}, blocks, gst,
                 FailIf(e.panic # PanicSpec(e), D("hand-over panic differs from the spec's prediction"))
-                \cup FailIf(~IsCaughtUp(lp) /\ ~IsCaughtUp(gp), D("hand-over although the spec's IsCaughtUp is false"))
+                \* (the ticker evaluated IsCaughtUp a few observable steps before the stub reactor could log)
+                \cup FailIf(~IsCaughtUp(lp) /\ cuAge > 3, D("hand-over although the spec's IsCaughtUp was false in the last logged pools"))
                 \cup FailIf(e.h # gst.h, D("hand-over state height differs from the applied height")),
                 FailIf(e.panic, V("CleanHandover", "handover:" \o Concat(e.seen.slots))),
                 \* a pair that is still lying in the pool when the node leaves the sync was never
@@ -299,7 +302,7 @@ Finish ==
   /\ l = Len(Trace) + 1
   /\ WriteVerdict("verdict.json", Len(Trace), viol, drift)
   /\ l' = l + 1
-  /\ UNCHANGED <<tT, honest, gp, blocks, gst, gstore, owed, failH, hand, viol, drift, wide>>
+  /\ UNCHANGED <<tT, honest, gp, blocks, gst, gstore, owed, failH, hand, viol, drift, wide, cuAge>>
 
 Next == Step \/ Finish
 =============================================================================
